@@ -46,7 +46,13 @@ type upRec struct {
 	TE      string `json:"te"` // "chunked" when the upstream received a chunked body
 }
 
+type interim struct {
+	Code int         `json:"code"`
+	Hdr  [][2]string `json:"hdr"`
+}
+
 type upReply struct {
+	Interim []interim // informational responses sent before the final one
 	Status  int
 	Hdr     [][2]string
 	Body    []byte
@@ -145,6 +151,15 @@ func getEnv() *c07env {
 				w.Write([]byte("ok"))
 				return
 			}
+			for _, im := range rep.Interim {
+				for _, h := range im.Hdr {
+					w.Header().Add(h[0], h[1])
+				}
+				w.WriteHeader(im.Code)
+				for _, h := range im.Hdr { // net/http keeps them for the final response otherwise
+					w.Header().Del(h[0])
+				}
+			}
 			for _, h := range rep.Hdr {
 				w.Header().Add(h[0], h[1])
 			}
@@ -220,6 +235,8 @@ type clientResp struct {
 	BodySHA string   `json:"bsha"`
 	Body    string   `json:"body,omitempty"` // only when short (no-route page)
 	TE      []string `json:"-"`
+	IHdr    [][]kv   `json:"-"` // headers of the interim responses
+	Raw     []byte   `json:"-"` // the body as read
 }
 
 // roundTrip writes raw request bytes to the front listener and reads one final response.
@@ -255,8 +272,9 @@ func (e *c07env) roundTrip(method string, raw []byte, keepBody bool) (*clientRes
 		if err != nil {
 			return nil, fmt.Errorf("read response: %v", err)
 		}
-		if resp.StatusCode >= 100 && resp.StatusCode < 200 && resp.StatusCode != 101 && len(out.Interim) < 4 {
+		if resp.StatusCode >= 100 && resp.StatusCode < 200 && resp.StatusCode != 101 && len(out.Interim) < 16 {
 			out.Interim = append(out.Interim, resp.StatusCode)
+			out.IHdr = append(out.IHdr, hdrList(resp.Header, e.upAddr))
 			continue
 		}
 		var body []byte
@@ -271,6 +289,7 @@ func (e *c07env) roundTrip(method string, raw []byte, keepBody bool) (*clientRes
 		out.BodyLen = len(body)
 		out.BodySHA = sha(body)
 		out.TE = resp.TransferEncoding
+		out.Raw = body
 		if keepBody && len(body) <= 4096 {
 			out.Body = toL1(body)
 		}
